@@ -19,7 +19,9 @@ RULE = ('Configuration grid reconnection on/off x reconnection_attempts '
         '{0.5,5,100} x randomization_factor {0,0.5,1}; connection parameters '
         'as values or callables, 1-3 namespaces; cause of loss {transport '
         'error, client disconnect(), server DISCONNECT of the last '
-        'namespace, server CLOSE}; outcome pattern of the successive '
+        'namespace (also overlapping the loss of the transport, with '
+        'asynchronous disconnect handlers), server CLOSE}; outcome pattern '
+        'of the successive '
         'attempts {transport failure, namespace refusal, transport lost again before the namespaces are answered, '
         'lost between the answers and connect() waking up, lost with the '
         'loss processed before the answers\' handler tasks, accepted and '
@@ -90,8 +92,11 @@ def strategy(tier):
         'headers': st.sampled_from([{}, {'X-A': 'b'}]),
         'transports': st.sampled_from([None, ['polling'], ['websocket'],
                                        ['websocket', 'polling']]),
+        # ('sdisc_overlap': the server ends every namespace and the transport
+        # is lost while the application's asynchronous disconnect handlers
+        # are still running)
         'cause': st.sampled_from(['lose', 'lose', 'lose', 'disconnect',
-                                  'sdisc_last', 'close']),
+                                  'sdisc_last', 'close', 'sdisc_overlap']),
         # ('kicked': the server accepts the returning client and ends one
         # of its namespaces right behind the acceptance)
         'outcomes': st.lists(st.sampled_from(['fail', 'fail', 'refuse',
@@ -162,6 +167,8 @@ def _run(case, h):
         return on_connect
     dhf_state = {'on': False, 'hit': False}
 
+    slow_disc = [False]
+
     def mk_disconnect(n):
         def on_disconnect(*a):
             log.append(('disconnect', n) + a)
@@ -169,7 +176,15 @@ def _run(case, h):
                     n == nss[case['dhf'] % len(nss)]:
                 dhf_state['hit'] = True
                 raise RuntimeError('application disconnect handler fault')
-        return on_disconnect
+        if not aio:
+            return on_disconnect
+
+        async def a_on_disconnect(*a):
+            on_disconnect(*a)
+            if slow_disc[0]:
+                for _ in range(4):
+                    await asyncio.sleep(0)
+        return a_on_disconnect
     for n in NSS:
         sio.on('connect', mk_connect(n), namespace=n)
         sio.on('disconnect', mk_disconnect(n), namespace=n)
@@ -532,6 +547,18 @@ def _run(case, h):
         if dhf_state['hit']:
             labels['disconnect_handler_fault_at_the_loss'] = True
             labels['nontrivial'] = True
+    elif cause == 'sdisc_overlap' and aio:
+        from engineio import packet as ep
+        slow_disc[0] = True
+        for n in nss:
+            for f in wire.frames(wire.DISCONNECT, n):
+                h.loop.spawn(h.eio._receive_packet(ep.Packet(ep.MESSAGE, f)))
+        h.loop.step()
+        h.loop.step()
+        h.lose()
+        h.loop.run_until_idle()
+        slow_disc[0] = False
+        labels['server_disconnect_overlaps_the_loss'] = True
     elif cause == 'disconnect':
         h.do(sio.disconnect())
     elif cause == 'close':
